@@ -70,7 +70,7 @@ def stream(ctx, n, order, tts, aged):
     ctx.sample(dict(stream=M.s.label, first_lines=M.s.lines[:8]))
 
 
-def reordering_stream(ctx, n, ncases):
+def reordering_stream(ctx, n, ncases, P='C03'):
     """quantification while dynamic reordering fires (natural trigger with a
     lowered threshold): the result must be the same function"""
     rng = ctx.rng
@@ -117,11 +117,11 @@ def reordering_stream(ctx, n, ncases):
             ctx.count('quantify-under-reordering')
             if r is None or abs(r) not in M.b._succ or M.tt(r) != expect:
                 got = None if (r is None or abs(r) not in M.b._succ) else hex(M.tt(r))
-                ctx.violation('C03:wrong-under-reordering',
+                ctx.violation(P + ':wrong-under-reordering',
                               f'{what} with reordering enabled (threshold {k}) gave {got}, expected {expect:#x}',
                               M.case())
             if M.tt(u) != t:
-                ctx.violation('C03:operand-changed', 'operand changed', M.case())
+                ctx.violation(P + ':operand-changed', 'operand changed', M.case())
             M.op('configure', False)
         M.op('decref', u)
         M.op('decref', v)
